@@ -43,6 +43,7 @@ Variable p_kill_head : list eff.   (* _kill_and_reroute before it calls reroute_
 Variable p_finish_ok : list eff.   (* set_invocation_result *)
 Variable p_finish_err : list eff.  (* set_invocation_exception *)
 Variable pop_before_claim : bool.  (* get_additional_invocations_to_run pops the message before it writes any status *)
+Variable poll_exhausted : bool.    (* every runner runs the poll generator to its end (the reroute of what a poll deferred comes after its last yield) *)
 
 (* the message is popped when the poll role starts (pop, then the status read that decides the role); when the source
    pops only after claiming, the pop is the second effect instead *)
@@ -53,7 +54,7 @@ Definition prog_of (r : role) : list eff :=
   | RClaimRun => claim_prefix ++ [ETrans RUNNING; EBody] ++ p_finish_ok
   | RClaimRetry => claim_prefix ++ [ETrans RUNNING; EBody] ++ p_retry
   | RClaimFail => claim_prefix ++ [ETrans RUNNING; EBody] ++ p_finish_err
-  | RClaimCC => [ETrans CONCURRENCY_CONTROLLED] ++ p_reroute
+  | RClaimCC => [ETrans CONCURRENCY_CONTROLLED] ++ (if poll_exhausted then p_reroute else [])
   | RClaimCCFinal => [ETrans CONCURRENCY_CONTROLLED_FINAL]
   | RClaimSkip => []
   | RPollRaises => []
